@@ -361,17 +361,16 @@ macro_rules! fonts {
         ];
     };
 }
-fn glyphs_from_u8_data(font_height: usize, mut data: &[u8]) -> HashMap<char, Glyph> {
+fn glyphs_from_u8_data(font_height: usize, data: &[u8]) -> HashMap<char, Glyph> {
     let mut glyphs = HashMap::new();
-    let mut ch = 0;
-    while !data.is_empty() {
-        let glyph = Glyph {
-            data: data[..font_height].into(),
-        };
-        glyphs.insert(unsafe { char::from_u32_unchecked(ch as u32) }, glyph);
-
-        data = &data[font_height..];
-        ch += 1;
+    if font_height == 0 {
+        return glyphs;
+    }
+    for (ch, glyph_data) in data.chunks_exact(font_height).enumerate() {
+        // glyph numbers that are not unicode scalar values (surrogate range) have no char key
+        if let Some(ch) = char::from_u32(ch as u32) {
+            glyphs.insert(ch, Glyph { data: glyph_data.into() });
+        }
     }
     glyphs
 }
